@@ -438,6 +438,33 @@ theorem items_spec {s : OMD K V} (h : Inv s) : s.items = .ok (Spec.items s.cells
   refine ⟨(k, v), ?_, by simp [Spec.last, hv]⟩
   rw [getitem_spec h]; simp [Spec.getitem, Spec.last, hv]
 
+theorem items_fst (L : List (K × V)) : (Spec.items L).map (·.1) = Spec.keys L := by
+  unfold Spec.items
+  have : ∀ ks : List K, (∀ k ∈ ks, (Spec.last k L).isSome) →
+      (ks.filterMap fun k => (Spec.last k L).map fun v => (k, v)).map (·.1) = ks := by
+    intro ks
+    induction ks with
+    | nil => intro _; rfl
+    | cons k r ih =>
+      intro hk
+      have h1 := hk k (by simp)
+      cases hl : Spec.last k L with
+      | none => simp [hl] at h1
+      | some v =>
+        rw [List.filterMap_cons]
+        simp only [hl, Option.map_some, List.map_cons]
+        rw [ih (fun x hx => hk x (by simp [hx]))]
+  exact this _ (fun k hk => (last_isSome_iff k L).mpr ((mem_keys L k).mp hk))
+
+theorem mem_items {L : List (K × V)} {p : K × V} (h : p ∈ Spec.items L) : Spec.last p.1 L = some p.2 := by
+  unfold Spec.items at h
+  obtain ⟨k, _, hk⟩ := List.mem_filterMap.mp h
+  cases hl : Spec.last k L with
+  | none => simp [hl] at hk
+  | some v => simp [hl] at hk; subst hk; exact hl
+
+theorem todict_spec {s : OMD K V} (h : Inv s) : s.todict = .ok (Spec.items s.cells) := items_spec h
+
 theorem values_spec {s : OMD K V} (h : Inv s) : s.values = .ok (Spec.values s.cells) := by
   simp [OMD.values, items_spec h, Spec.values]
 
